@@ -49,6 +49,7 @@ type State struct {
 	path     []string
 	loopSnap map[string][]Term // variant snapshots per loop key
 	nAssume  int
+	guards   map[string]guardInfo
 }
 
 func (st *State) clone() *State {
@@ -82,6 +83,12 @@ func (st *State) clone() *State {
 		n.loopSnap[k] = v
 	}
 	n.nAssume = st.nAssume
+	if st.guards != nil {
+		n.guards = make(map[string]guardInfo, len(st.guards))
+		for k, v := range st.guards {
+			n.guards[k] = v
+		}
+	}
 	return n
 }
 
@@ -121,9 +128,46 @@ func (st *State) check(o *Obligation, goal Term) {
 
 func (st *State) initHeap(name string, sort Sort) Term {
 	n := mangle(name) + "@0"
-	st.x.enc.declare(n, sort)
+	e := st.x.enc
+	if !e.declared[n] {
+		e.declare(n, sort)
+		t := Term{n, sort}
+		switch {
+		case strings.HasSuffix(name, ".w") && strings.HasPrefix(name, "L."):
+			// this call holds no lock on entry
+			e.decls = append(e.decls, fmt.Sprintf("(assert (= %s ((as const (Array Ref Bool)) false)))", n))
+		case strings.HasSuffix(name, ".r") && strings.HasPrefix(name, "L."):
+			e.decls = append(e.decls, fmt.Sprintf("(assert (= %s ((as const (Array Ref Int)) 0)))", n))
+		case name != "alloc":
+			if c := st.closure(t, Term{mangle("alloc") + "@0", SArr(SRef, SBool)}); c != "" {
+				e.declare(mangle("alloc")+"@0", SArr(SRef, SBool))
+				e.decls = append(e.decls, "(assert "+c+")")
+			}
+		}
+	}
 	st.x.heapSorts[name] = sort
 	return Term{n, sort}
+}
+
+// closure: every reference stored in heap array arr is null or allocated (w.r.t. alloc).
+// Returns "" when the array holds no references.
+func (st *State) closure(arr Term, alloc Term) string {
+	is, es := splitArr(arr.Sort)
+	switch {
+	case es == SRef:
+		return fmt.Sprintf("(forall ((r!c %s)) (! (or (= (select %s r!c) null) (select %s (select %s r!c))) :pattern ((select %s r!c))))", is, arr.S, alloc.S, arr.S, arr.S)
+	case es == SIface:
+		return fmt.Sprintf("(forall ((r!c %s)) (! (=> ((_ is iref) (select %s r!c)) (or (= (pref (select %s r!c)) null) (select %s (pref (select %s r!c))))) :pattern ((select %s r!c))))", is, arr.S, arr.S, alloc.S, arr.S, arr.S)
+	case es.IsArr():
+		ks, vs := splitArr(es)
+		switch vs {
+		case SRef:
+			return fmt.Sprintf("(forall ((r!c %s) (k!c %s)) (! (or (= (select (select %s r!c) k!c) null) (select %s (select (select %s r!c) k!c))) :pattern ((select (select %s r!c) k!c))))", is, ks, arr.S, alloc.S, arr.S, arr.S)
+		case SIface:
+			return fmt.Sprintf("(forall ((r!c %s) (k!c %s)) (! (=> ((_ is iref) (select (select %s r!c) k!c)) (or (= (pref (select (select %s r!c) k!c)) null) (select %s (pref (select (select %s r!c) k!c))))) :pattern ((select (select %s r!c) k!c))))", is, ks, arr.S, arr.S, alloc.S, arr.S, arr.S)
+		}
+	}
+	return ""
 }
 
 func (st *State) hget(name string, sort Sort) Term {
@@ -147,12 +191,25 @@ func (st *State) hhavoc(name string) {
 	if !ok {
 		return
 	}
-	st.heap[name] = st.x.enc.Fresh(name+"@h", sort)
+	t := st.x.enc.Fresh(name+"@h", sort)
+	st.heap[name] = t
+	if name != "alloc" && !strings.HasPrefix(name, "L.") {
+		if c := st.closure(t, st.hget("alloc", SArr(SRef, SBool))); c != "" {
+			st.assume(Term{c, SBool})
+		}
+	}
 }
 
 // havocAll forgets everything about the heap (used for unmodelled calls).
 func (st *State) havocAll(except func(string) bool) {
-	for name := range st.x.heapSorts {
+	// the callee may allocate: alloc grows
+	oldAlloc := st.hget("alloc", SArr(SRef, SBool))
+	newAlloc := st.x.enc.Fresh("alloc@h", SArr(SRef, SBool))
+	st.assume(Term{fmt.Sprintf("(forall ((r!a Ref)) (! (=> (select %s r!a) (select %s r!a)) :pattern ((select %s r!a))))", oldAlloc.S, newAlloc.S, newAlloc.S), SBool})
+	st.heap["alloc"] = newAlloc
+	// objects not yet published stay unknown to callees: still unallocated from the heap's point of view is not needed;
+	// they are simply allocated (we set alloc when creating them).
+	for _, name := range sortedKeys(st.x.heapSorts) {
 		if strings.HasPrefix(name, "L.") || name == "alloc" {
 			continue // lock state of this thread and allocation are not changed by callees in a way we rely on
 		}
@@ -162,6 +219,7 @@ func (st *State) havocAll(except func(string) bool) {
 		st.hhavoc(name)
 	}
 	st.x.havocAllUsed = true
+	_ = oldAlloc
 }
 
 func fieldArrName(structT types.Type, f *types.Var) string {
